@@ -36,8 +36,8 @@ manifest = {
     "version": 1,
     "setup_cmd": "cd /verif/harness && CARGO_NET_OFFLINE=true cargo build --offline",
     "hooks": {
-        "guard": "cargo feature `verif` on crate ord (off by default)",
-        "enable": "the harness crate /verif/harness depends on ord by path with features = [\"verif\"]; every check runs `cargo build --offline` there, which rebuilds ord from /repo's working tree with the feature on",
+        "guard": "cargo feature `verif` on crate ord and on crate mockcore (ord's mock node, crates/mockcore); both off by default",
+        "enable": "the harness crate /verif/harness depends on ord and mockcore by path with features = [\"verif\"]; every check runs `cargo build --offline` there, which rebuilds ord from /repo's working tree with the feature on",
         "baseline_off_cmd": "cd /repo && cargo test --workspace --no-fail-fast --offline",
         "source_commits": hook_commits,
         "add_only": True,
